@@ -73,6 +73,25 @@ def run (op : String) (a : Json) : Option (Except String Json) :=
         pure ({ default := k, value := ← dOptS (fld j "value") } : DtdAttrDecl)
       if op == "gen.dtd_attr" then pure <| ok (jList (fun d => jGAttr (dtdAttr d)) decls)
       else pure <| ok (jList (fun d => jField (dtdAttrField d)) decls)
+  | "gen.read_attr" | "gen.dtd_read_attr" => some do
+      -- how the strict parser fills the generated field from a document that gives / omits the attribute
+      let field ← if op == "gen.read_attr" then do
+          let d := fld a "decl"
+          pure (attrField { use := ← dUse (fld d "use"), default := ← dOptS (fld d "default"),
+                            fixed := ← dOptS (fld d "fixed"), type := ← dType (fld d "type") })
+        else do
+          let d := fld a "decl"
+          let k ← match fld d "default" with
+            | .str "required" => pure DtdDefault.required
+            | .str "implied" => pure DtdDefault.implied
+            | .str "fixed" => pure DtdDefault.fixed
+            | .str "none" => pure DtdDefault.noneD
+            | _ => .error "bad dtd default"
+          pure (dtdAttrField { default := k, value := ← dOptS (fld d "value") })
+      let givens ← (← asArr (fld a "givens")).mapM dOptS
+      pure <| ok (jList (fun x => match readAttr field x with
+        | none => Json.str "ParserError"
+        | some v => Json.arr #[jOpt jStr v]) givens)
   | "gen.enum_default" => some do
       let members ← (← asArr (fld a "members")).mapM fun j => do
         pure ({ value := ← asStr (fld j "value"), name := ← asStr (fld j "name") } : EnumMember)
